@@ -1,6 +1,7 @@
 /- Driver/Search.lean — line-protocol operations over Model/Search and Spec/Neighbours. -/
 import Prs.Driver.Json
 import Prs.Spec.Neighbours
+import Prs.Model.Neighbors
 import Std.Data.HashMap
 open Lean
 namespace Prs.Drv
@@ -147,6 +148,36 @@ def opSearch (op : String) (j : Json) : Option (R Json) :=
         | .arr #[a, b, c] => do pure ((← a.getNat?), (← b.getNat?), (← c.getInt?))
         | _ => throw "trip: [q, r, d] expected"
       pure (jList (jList jInt) (cooDense ts (← nat j "nref") (← nat j "nqry")))
+  | "next_nearest" => some do
+      let A ← alphabetOf j
+      let nb := if (← bool j "ham") then hamNeighbors A else levNeighbors A
+      pure (jList jStr (nextNearest nb (← chars j "x") (← nat j "d")))
+  | "find_neighbor_pairs" => some do
+      let A ← alphabetOf j
+      let nb := if (← bool j "ham") then hamNeighbors A else levNeighbors A
+      -- `order` = sorted(set(seqs)) (code-point order), computed here
+      let xs ← strList j "xs"
+      let order := ((dedup (xs.map String.ofList)).mergeSort (fun a b => decide (a ≤ b))).map String.toList
+      pure (jList (fun p => Json.arr #[jStr p.1, jStr p.2]) (findNeighborPairs nb order))
+  | "find_neighbor_pairs_index" => some do
+      let A ← alphabetOf j
+      let nb := if (← bool j "ham") then hamNeighbors A else levNeighbors A
+      pure (jList (fun p => Json.arr #[jNat p.1, jNat p.2]) (findNeighborPairsIndex nb (← strList j "xs")))
+  | "neighbor_numbers" => some do
+      let A ← alphabetOf j
+      let nb := if (← bool j "ham") then hamNeighbors A else levNeighbors A
+      let ref ← match optField j "ref" with
+        | none => pure none
+        | some _ => do pure (some (← strList j "ref"))
+      pure (jList jNat (neighborNumbers nb (← strList j "xs") ref))
+  | "isdist1" => some do
+      let A ← alphabetOf j
+      let nb := if (← bool j "ham") then hamNeighbors A else levNeighbors A
+      pure (Json.bool (isdist1 nb (← chars j "x") (← strList j "ref")))
+  | "isdist_ham" => some do
+      pure (Json.bool (isdistHam (← alphabetOf j) (← nat j "n") (← chars j "x") (← strList j "ref")))
+  | "nndist_hamming" => some do
+      pure (jOpt jNat (nndistHamming (← alphabetOf j) (← chars j "x") (← strList j "ref") (← nat j "maxdist")))
   | _ => none
 
 end Prs.Drv
